@@ -29,6 +29,8 @@ fn parent(args: &Args) {
     let n = args.get_u64("shards", args.tier.pick(80, 2000));
     let ends = run::run_children(args, &ChildSpec::new("hist", n).arg("hist", args.get_u64("hist", 300)).timeout(600), &mut out);
     run::classify_ends(&ends, &mut out, true);
+    let mut extra = Map::new();
+    vlib::sanlayer::run_layers(ID, args, &mut out, &mut extra);
     run::finish(
         Finish {
             id: ID,
@@ -43,7 +45,7 @@ fn parent(args: &Args) {
             min_evals: 100000,
             min_distinct: 150,
             exhaustive: false,
-            extra: Map::new(),
+            extra,
         },
         out,
     );
